@@ -15,12 +15,12 @@ def run(tier, seed):
     standard_front(chk, 'Props/C04.v', needs_items=('fset',), extra_vo=('Model/Kernel.v', 'Model/ZMatrix.v', 'Model/NearField.v', 'Proofs/NearFieldP.v', 'Corr/ZDriver.v', 'Gen/Tables.v'))
     rng = random.Random(seed)
     q = tier == 'quick'
-    good, errs = stage_topo.run_nf(chk, rng, 40 if q else 400, grounds=(None, None, 'ideal'))
+    good, errs = stage_topo.run_nf(chk, rng, 40 if q else 1600, grounds=(None, None, 'ideal'))
     for r in good:
         chk.add_case('nf:' + json.dumps(r['spec'], sort_keys=True), len(r['obs']['pulses']) >= 2,
                      sample=dict(family=r['spec']['family'], pulses=len(r['obs']['pulses']), ground=r['obs']['ground']))
     for r in errs:
         if r['error']['exception'] not in ('ValueError', 'IndexError'):
             report_error(chk, 'nf', r)
-    run_oracle(chk, rng, 32 if q else 320, 'zor.c04', 'c04-oracle', (None, None, 'ideal'))
+    run_oracle(chk, rng, 32 if q else 1280, 'zor.c04', 'c04-oracle', (None, None, 'ideal'))
     return chk.finish()
